@@ -86,6 +86,12 @@ Theorem C13_parse_stream_junk : forall raws segs trail,
 Proof. exact parse_stream_junk. Qed.
 Print Assumptions C13_parse_stream_junk.
 
+(* soundness: whatever the parser returns is a registered packet of exactly its declared length *)
+Theorem C13_parse_buf_sound : forall raws buf ps q, wf_bytes buf ->
+  parse_buf raws buf = Ok (ps, q) -> Forall (wf_packet raws) ps.
+Proof. exact parse_buf_sound. Qed.
+Print Assumptions C13_parse_buf_sound.
+
 (* wf_packet is what C01's layout produces: header of the standard ++ (dlen+1) data octets *)
 Theorem C13_wf_packet_layout : forall raws h d,
   sph_valid h -> In (sph_word0 h mod 8192) raws -> wf_bytes d -> len d = dlen h + 1 ->
